@@ -9,6 +9,7 @@ pub mod c10;
 pub mod c11;
 pub mod c12;
 pub mod c13;
+pub mod c14;
 
 #[cfg(feature = "full")]
 pub mod c01;
@@ -25,8 +26,6 @@ pub mod c19;
 #[cfg(feature = "full")]
 pub mod c20;
 
-#[cfg(any(feature = "full", feature = "v-aws"))]
-pub mod c14;
 #[cfg(any(feature = "full", feature = "v-aws"))]
 pub mod c15;
 #[cfg(any(feature = "full", feature = "v-aws"))]
